@@ -216,3 +216,28 @@ def spec_rules(sp, ren):
                 flat.append(b)
         out.append((heads, tuple(sorted(flat, key=repr))))
     return sorted(out, key=repr)
+
+
+def run_ser_par_twins(ctx, rep, floor=40):
+    """every corpus program that exists as `X` (serial) and `X_par` (parallel, same text): both reconstruct to the same logical rules"""
+    import twins
+    pgs, skipped = all_programs(ctx, rep)
+    by_name = {pg.p.path.split('::')[0]: pg for pg in pgs if pg.ours}
+    spec = load_spec(ctx)
+    n = 0
+    for name, a in sorted(by_name.items()):
+        b = by_name.get(name + '_par')
+        if b is None or name.endswith('_par'):
+            continue
+        sa, sb = spec.get(a.crate + '::' + name), spec.get(b.crate + '::' + name + '_par')
+        if not sa or not sb or [r['text'] for r in sa['rules']] != [r['text'] for r in sb['rules']]:
+            continue        # not the same program text
+        n += 1
+        d = twins.diff_logical(twins.logical_rules(a), twins.logical_rules(b))
+        rep.inst('T.SP', 'serial %s ~ parallel %s_par: same logical rule variants: %s' % (name, name, d is None))
+        rep.programs.add(name); rep.programs.add(name + '_par')
+        if d is not None:
+            rep.viol('T', 'twin %s ~ %s_par' % (name, name), 'ser-par-logic-differs',
+                     'the serial and the parallel expansion of the same program evaluate different rule sets: ' + d)
+    rep.floor('T.SP', floor, 'serial/parallel program pairs')
+    return n
